@@ -638,6 +638,30 @@ def _run(ctx):
            U.call_name(n) in ('_increase_capacity', '_schedule_actions')]
     if not mut:
         raise AnalysisError('C07.R6: accounting calls lost')
+    # for plain actions the repeated delivery never gets here: the second
+    # result is refused (raises, transaction rolls back) in
+    # RegularAction.complete - without that refusal the scheduled
+    # on_action_complete below would credit capacity a second time
+    ra = prog.func('mistral.engine.actions.RegularAction.complete')
+    racfg = ctx.cfg(ra)
+    done = ctx.sd.pred_set('is_completed')
+    INr, kr = ctx.sd.analyze(racfg, ra, [('self.action_ex.state',
+                                          ctx.sd.state_domain)],
+                             kill=lambda c: ())
+    refused = [x for x in racfg.nodes if x.kind == 'stmt' and
+               isinstance(x.ast, ast.Raise) and x.ast.exc is not None and
+               ctx.sd.values_at(INr, kr, x, 'self.action_ex.state') and
+               ctx.sd.values_at(INr, kr, x, 'self.action_ex.state') <= done]
+    ends = [x for x in racfg.nodes if x.kind == 'stmt' and
+            isinstance(x.ast, ast.Return) and
+            ctx.sd.values_at(INr, kr, x, 'self.action_ex.state') & done]
+    r6.check(bool(refused) and not ends,
+             ctx.construct(ra, extra='a repeated result is refused, not '
+                           'ignored'),
+             'a result for an already completed action is not refused with '
+             'an error (returning quietly lets action_handler schedule '
+             'WithItemsTask.on_action_complete again: capacity is credited '
+             'twice and concurrency + 1 items run)', ctx.loc(ra))
     for c in mut:
         cn = cfg.node_of(c)
         guarded = any(isinstance(t, ast.expr) and arg in {
